@@ -272,8 +272,7 @@ pub fn c13(tier: Tier, report: &mut Report) {
         windows: 0,
         deletions: tier == Tier::Thorough,
         ends: vec!["".into()],
-        second_order: false,
-    };
+        second_order: false, ws_variants: vec![] };
     let docs = crate::spaces::g3(&h.seeds, &opts);
     let n = docs.len() as u64;
     let results = par_chunks(n, 2000, ncpu(), |s, e| {
